@@ -16,6 +16,7 @@ package main
 //  ff <orRaw> <name> <arr> [ … ]        d.FieldFormat / d.FieldFormatOrRaw
 //  fl <n> <orRaw> <name> <arr> [ … ]    d.FieldFormatLen / d.FieldFormatOrRawLen
 //  fg <off> <n> <name> <arr> [ … ]      d.FieldFormatRange
+//  in <arr> [ … ]                       d.Format: nested format, its root's children inlined into the current value
 //  fb <name> <nbits> <arr> [ … ]        d.FieldFormatBitBuf on a fresh zero buffer
 //  sb|ab <name> <nbits> [ … ]           d.FieldStructRootBitBufFn / d.FieldArrayRootBitBufFn
 //  rb <name> <nbits>                    d.FieldRootBitBuf
@@ -90,6 +91,9 @@ func (n *Node) write(sb *strings.Builder) {
 		writeBody(sb, n.Body)
 	case "fg":
 		fmt.Fprintf(sb, "fg %d %d %s %s", n.X, n.N, n.Name, b01(n.Arr))
+		writeBody(sb, n.Body)
+	case "in":
+		fmt.Fprintf(sb, "in %s", b01(n.Arr))
 		writeBody(sb, n.Body)
 	case "fb":
 		fmt.Fprintf(sb, "fb %s %d %s", n.Name, n.N, b01(n.Arr))
@@ -205,6 +209,9 @@ func (p *parser) item() *Node {
 		n.Name = p.next()
 		n.Arr = p.b()
 		n.Body = p.body()
+	case "in":
+		n.Arr = p.b()
+		n.Body = p.body()
 	case "fb":
 		n.Name = p.next()
 		n.N = p.i64()
@@ -300,6 +307,8 @@ func exec(d *decode.D, n *Node) {
 		}
 	case "fg":
 		d.FieldFormatRange(n.Name, n.X, n.N, subGroup(n.Arr, n.Body), nil)
+	case "in":
+		d.Format(subGroup(n.Arr, n.Body), nil)
 	case "fb":
 		d.FieldFormatBitBuf(n.Name, zeroBuf(n.N), subGroup(n.Arr, n.Body), nil)
 	case "sb":
@@ -441,7 +450,7 @@ func (g *gen) item(c *gctx) *Node {
 		}
 	}
 	for {
-		switch op := g.r.Intn(28); {
+		switch op := g.r.Intn(30); {
 		case op < 6:
 			w := g.width()
 			if w > left {
@@ -560,6 +569,23 @@ func (g *gen) item(c *gctx) *Node {
 				n.N = int64(g.r.Intn(int(c.len-n.X) + 1))
 				s := g.sub(c, 0, n.N, arr, false)
 				n.Body = g.body(s, 4)
+			}
+			return n
+		case op >= 28:
+			if deep {
+				continue
+			}
+			// d.Format: the nested root's children become children of the current value. An array root
+			// repeats names freely (which a struct must refuse), a struct root may collide with earlier fields.
+			n := &Node{Op: "in", Arr: g.r.Bool()}
+			s := g.sub(c, 0, left, n.Arr, false)
+			if g.r.Intn(3) == 0 {
+				s.names = append([]string(nil), c.names...) // let the inner format reuse outer names
+			}
+			n.Body = g.body(s, 4)
+			c.pos += s.pos
+			if !(n.Arr && !c.arr) {
+				c.names = append(c.names, s.names...)
 			}
 			return n
 		case op == 24:
